@@ -95,6 +95,12 @@ impl Engine for SemEngine {
                 // known finding K1: a call in statement position leaves its result on the stack;
                 // 300 iterations of a trivial while loop exhaust a 256-slot stack
                 vec!["sem run mod([],[fn($6d61696e,[],[setvar($63,int(#0)),while(less(readvar($63),int(#300)),composite($5f,[call($66,[]),setvar($63,add(readvar($63),int(#1)))])),setglobal($67,int(#1))]),fn($66,[],[return(int(#5))])],[]) strict".to_string()],
+                // two captured variables of one loop iteration, the closures called after the loop
+                // (repaired: CloseUpvalue did not remove its slot, the lower variable stayed open)
+                vec!["sem run mod([],[fn($6d61696e,[],[setvar($63,table),repeat($69,int(#3),composite($5f,[setvar($61,readvar($69)),setvar($62,mul(readvar($69),int(#10))),append(closure([],[return(add(readvar($61),readvar($62)))]),readvar($63))])),setglobal($6730,dyncall([],getprop(readvar($63),int(#0)))),setglobal($6731,dyncall([],getprop(readvar($63),int(#1)))),setglobal($6732,dyncall([],getprop(readvar($63),int(#2))))])],[])".to_string()],
+                // known finding K8: a failed run_function leaves the callee's frames; a host function that
+                // tolerates the failure (pcall) continues with them on the call stack
+                vec!["sem run mod([],[fn($6d61696e,[],[setglobal($61,call($66,[]))]),fn($66,[],[setvar($78,callnative($7063616c6c,[closure([$70],[return(getprop(int(#1),int(#2)))]),int(#0)])),return(int(#5))])],[])".to_string()],
                 // known finding K6: `abort` inside a callee that a host function called ends only the callee
                 vec!["sem run mod([],[fn($6d61696e,[],[setglobal($67,callnative($63616c6c6261636b,[closure([$70],[abort]),int(#5)])),setglobal($68,int(#7))])],[])".to_string()],
                 // known finding K4: a call with too few arguments binds the caller's local
